@@ -95,10 +95,12 @@ pub struct Runner<'a> {
     pub storage: Option<std::rc::Rc<futures::lock::Mutex<crate::sm::HStorage>>>,
     pub app_set: Option<std::rc::Rc<futures::lock::Mutex<crate::sm::HAppSet>>>,
     pub contended: u64,
+    /// the process dies once the trace has this many lines (checked at every environment interaction)
+    pub crash_at: Option<usize>,
 }
 
 #[derive(Debug, PartialEq)]
-pub enum UnitEnd { Idle, Negative, Stalled, StreamEnded }
+pub enum UnitEnd { Idle, Negative, Stalled, StreamEnded, Crashed }
 
 impl<'a> Runner<'a> {
     fn poll_ctls(&mut self) {
@@ -165,8 +167,10 @@ impl<'a> Runner<'a> {
     pub fn run_unit(&mut self) -> UnitEnd {
         let nb = self.hub.lock().unwrap().boundaries.len();
         loop {
+            if let Some(n) = self.crash_at { if self.hub.lock().unwrap().trace.len() >= n { return UnitEnd::Crashed; } }
             // drain everything the machine can do on its own
             while self.poll_stream() {
+                if let Some(n) = self.crash_at { if self.hub.lock().unwrap().trace.len() >= n { return UnitEnd::Crashed; } }
                 if self.hub.lock().unwrap().boundaries.len() > nb { self.poll_ctls(); return UnitEnd::Idle; }
             }
             self.poll_ctls();
